@@ -3,6 +3,8 @@
 # (confirm, then the full check matrix) and stores the results under <this verif dir>/seeded/.
 # Meant for `vp run -- tools/run_seeds.sh` (a snapshot of the committed /verif, so that edits do not disturb it).
 cd "$(dirname "$0")/.."
+# results are kept outside the snapshot (which is removed when the run is stopped)
+export VERIF_SEEDED_DIR=${VERIF_SEEDED_DIR:-/verif/seeded}
 ./check setup > /dev/null 2>&1
 roots="${@:-/tmp/wt /tmp/wt2}"
 for root in $roots; do
@@ -10,7 +12,7 @@ for root in $roots; do
   for p in $(ls $root | grep '^C[0-9][0-9]$'); do for m in m1 m2; do
     [ -d $root/$p/out/$m ] || continue
     id=$tag-$p-$m
-    [ -f seeded/$id/meta.json ] && continue
+    [ -f $VERIF_SEEDED_DIR/$id/meta.json ] && continue
     /venv/bin/python -m harness.seedtool $root/$p $root/$p/out/$m $id > /tmp/seedlog-$id.txt 2>&1
     grep "^seed\|NOT CONF" /tmp/seedlog-$id.txt
   done; done
